@@ -61,6 +61,37 @@ fn summarize_items(ts: proc_macro2::TokenStream) -> Value {
     json!(items)
 }
 
+/// impl items nested inside the generated function bodies (helper impls such as the Debug method wrapper)
+struct Nested(Vec<Value>, usize);
+
+impl<'ast> syn::visit::Visit<'ast> for Nested {
+    fn visit_item_impl(&mut self, im: &'ast syn::ItemImpl) {
+        if self.1 > 0 {
+            let params: Vec<String> = im.generics.params.iter().map(|p| p.to_token_stream().to_string()).collect();
+            let preds: Vec<String> = im.generics.where_clause.as_ref().map(|w| w.predicates.iter().map(|p| p.to_token_stream().to_string()).collect()).unwrap_or_default();
+            self.0.push(json!({
+                "trait": im.trait_.as_ref().map(|(_, p, _)| p.to_token_stream().to_string()),
+                "params": params,
+                "self_ty": im.self_ty.to_token_stream().to_string(),
+                "where": preds,
+            }));
+        }
+        self.1 += 1;
+        syn::visit::visit_item_impl(self, im);
+        self.1 -= 1;
+    }
+}
+
+fn nested_impls(ts: proc_macro2::TokenStream) -> Value {
+    let file: syn::File = match syn::parse2(ts) {
+        Ok(f) => f,
+        Err(_) => return json!([]),
+    };
+    let mut n = Nested(vec![], 0);
+    syn::visit::Visit::visit_file(&mut n, &file);
+    json!(n.0)
+}
+
 fn expand_one(src: &str) -> Value {
     let ast: syn::DeriveInput = match syn::parse_str(src) {
         Ok(a) => a,
@@ -69,7 +100,7 @@ fn expand_one(src: &str) -> Value {
     let record = ser::derive_input(&ast);
     let res = panic::catch_unwind(panic::AssertUnwindSafe(|| educe_inproc::derive_input_handler_verif(ast)));
     match res {
-        Ok(Ok(ts)) => json!({"outcome": "ok", "tokens": canonical(&ts), "items": summarize_items(ts), "input": record}),
+        Ok(Ok(ts)) => json!({"outcome": "ok", "tokens": canonical(&ts), "nested": nested_impls(ts.clone()), "items": summarize_items(ts), "input": record}),
         Ok(Err(e)) => {
             let msgs: Vec<String> = e.into_iter().map(|x| x.to_string()).collect();
             json!({"outcome": "err", "message": msgs.join(" | "), "input": record})
